@@ -11,6 +11,8 @@
 (*   WireSpawnOptions                actor/spawn.go wireSpawnOptions (relocation: decode)  *)
 (*   RemoteSpawnRequest              internal/remoteclient RemoteSpawn (remote: encode)    *)
 (*   RemoteSpawnHandler              actor/remote_server.go remoteSpawnHandler (decode)    *)
+(*   ChildPID, RemoteSpawnChild*     actor/pid.go buildChildOptions / spawnChildRemote,    *)
+(*                                   actor/remote_server.go remoteSpawnChildHandler        *)
 (* Durations are milliseconds; -1 is the supervisor's "no retry window" sentinel (-1ns).   *)
 (*                                                                                        *)
 (* Defects = {} is the repaired design.  "BackoffNotOnWire" \in Defects is the code as    *)
@@ -138,6 +140,40 @@ RemoteSpawnHandler(w) ==
           w.init_timeout,
           w.relocatable)
 
+(* ------------------------------------------------------------------ remote child spawn -- *)
+(* PID.buildChildOptions + newPID: what a CHILD ends up with (role and reentrancy are not   *)
+(* applied to children, children are never relocatable; newPID supplies the defaults)       *)
+ChildPID(o) ==
+  [sup   |-> IF o.sup = Absent THEN DefaultSupervisor ELSE o.sup,
+   pass  |-> IF o.pass = NoPass THEN TimeBased(DefaultPassivationMs) ELSE o.pass,
+   reent |-> Absent,
+   stash |-> o.stash,
+   role  |-> None,
+   deps  |-> o.deps,
+   initTimeout |-> o.initTimeout,
+   relocatable |-> FALSE]
+
+(* PID.spawnChildRemote + remoteclient.RemoteSpawnChild: the config is cloned with relocation disabled; no role field *)
+RemoteSpawnChildRequest(o) ==
+  [relocatable |-> FALSE,
+   pass        |-> EncodePassivation(o.pass),
+   deps        |-> o.deps,
+   enable_stash |-> o.stash,
+   supervisor  |-> IF o.sup = Absent THEN Absent ELSE EncodeSupervisor(o.sup),
+   reentrancy  |-> IF o.reent = Absent THEN Absent ELSE EncodeReentrancy(o.reent),
+   init_timeout |-> IF o.initTimeout > 0 THEN o.initTimeout ELSE 0]
+
+(* actorSystem.remoteSpawnChildHandler -> parent.SpawnChild *)
+RemoteSpawnChildHandler(w) ==
+  Options(IF w.supervisor = Absent THEN Absent ELSE DecodeSupervisor(w.supervisor),
+          DecodePassivation(w.pass),
+          IF w.reentrancy = Absent THEN Absent ELSE DecodeReentrancy(w.reentrancy),
+          w.enable_stash,
+          None,
+          w.deps,
+          w.init_timeout,
+          w.relocatable)
+
 (* ------------------------------------------------------------------ user configuration *)
 (* a configuration as the user writes it (uniform records, JSON friendly):                *)
 (*  sup   = [set, strategy, rules |-> [kind, d, m (sequence of <<type, directive>>)], retry, backoff] *)
@@ -163,4 +199,7 @@ Relocated(o) == ConfigPID(WireSpawnOptions(ToSerialize(ConfigPID(o))))
 Remote(o)    == ConfigPID(RemoteSpawnHandler(RemoteSpawnRequest(o)))
 SurvivesRelocation(o)  == o.relocatable => Relocated(o) = Local(o)
 SurvivesRemoteSpawn(o) == Remote(o) = Local(o)
+LocalChild(o)  == ChildPID(o)
+RemoteChild(o) == ChildPID(RemoteSpawnChildHandler(RemoteSpawnChildRequest(o)))
+SurvivesRemoteChildSpawn(o) == RemoteChild(o) = LocalChild(o)
 ====
